@@ -245,6 +245,9 @@ def run(tier: str, seed: int) -> int:
                          "operation) pair executed on a real layer, a distinct accepted trace event, or a distinct "
                          "(real configuration, clear position) pair.")
     thorough = tier == "thorough"
+    # end-to-end composition of two layers, a trainer and the updaters (NetworkCore), in a process of its own
+    from .. import subcheck
+    net = subcheck.spawn(PID, "harness.props.network", "phase", tier, seed + 1, "network")
     # ---- T: exhaustive
     if thorough:
         mcs = [("flat-3x2", consts({"serial", "biclique"}, ncs=(1, 2, 3), maxsteps=3, depth=7, partial=False)),
@@ -294,6 +297,7 @@ def run(tier: str, seed: int) -> int:
 
     # ---- B(ii): real components, clear at every position
     c17_real.run_real(chk, rng, thorough)
+    subcheck.join(chk, net)
     return chk.finish()
 
 
